@@ -125,7 +125,7 @@ def run(ctx, prog):
         if ce:
             for name, rx in CLASSES:
                 if re.search(rx, ce[2]):
-                    if name == 'FINITE' and not closure_calls(prog, ce[2], 're:f32>::is_finite$', 'f32::is_finite', 're:is_finite$'):
+                    if name == 'FINITE' and not util.finite_closure(prog, ce[2]):
                         continue
                     cls = name
         if cls is None:
@@ -154,7 +154,7 @@ def run(ctx, prog):
                      ('guard %s at %s' % (p, ins.loc_of(g))) if g is not None else 'no pre-append dimension guard: ' + why)
         elif cls == 'FINITE':
             g, p, why = find_guard(ins, first_app, r'^bool\[.*Iterator>::any\((?:slice::iter|.*iter)\(arg:embedding\), closure:.*\)\]$',
-                                   extra=lambda p_: closure_calls(prog, p_, 're:is_finite$'))
+                                   extra=lambda p_: util.finite_closure(prog, p_))
             have_finite = g is not None
             ctx.inst('C03.R1', ins.short, 'class FINITE checked before the log', g is not None,
                      ('guard %s at %s' % (p[:120], ins.loc_of(g))) if g is not None else
